@@ -258,6 +258,16 @@ class OPENQASMVisitor(Visitor):
         self.gate_defs['rccx'] = GateDef('rccx', 0, 3, RCCXGate())
         self.gate_defs['rc3x'] = GateDef('rc3x', 0, 4, RC3XGate())
 
+    def statement(self, tree: lark.Tree) -> None:
+        """Statement node visitor, rejects classically controlled ops."""
+        c = tree.children
+        is_token = len(c) == 3 and isinstance(c[1], lark.Token)
+        if is_token and c[1].type == 'NNINTEGER':
+            raise LangException(
+                'BQSKit does not support classically controlled operations'
+                ' (if statements).',
+            )
+
     def qreg(self, tree: lark.Tree) -> None:
         """Qubit register node visitor."""
         reg_name = tree.children[0]
